@@ -24,8 +24,10 @@ REGISTRY = []
 
 class Loop(object):
     def __init__(self, vars=None, inv=None, variant=None, heap=None, ghost=None, elem=None,
-                 done_name="done", note=None, hint=None):
+                 done_name="done", note=None, hint=None, tail=None, min_decrease=1):
         self.hint = hint
+        self.tail = tail
+        self.min_decrease = min_decrease
         self.vars = vars or {}
         self.inv = inv
         self.variant = variant
@@ -68,6 +70,7 @@ class Contract(object):
         self.bounded = d.get("bounded")           # text if this is a bounded stand-in, else None
         self.accepts = d.get("accepts")           # python-level predicate(ctx, ns): typed case selector at call sites
         self.pre_hints = d.get("pre_hints")       # {callee name: spec fn} proof hints run before proving pre@callee
+        self.effect = d.get("effect")             # python-level hook(ctx, ns) -> result, replaces `returns`
         self.proof = d.get("proof", "symbolic")   # 'symbolic' | 'table' (discharged by a @table obligation)
         self.pure = d.get("pure")                 # 'str'|'bytes'|'int': result is a function of the arguments
 
